@@ -93,8 +93,8 @@ TEXT = {
     },
     "C14": {
         "technique": "Verus: the two recursive basis-function bodies verified equal to the Cox-de Boor / de Boor derivative recursion spec functions (termination, index bounds, usize arithmetic, non-zero divisors included); lemmas on the spec",
-        "level_text": "Proof: bsplev_single_f64 and bspldnev_single_f64 (extracted each run) return exactly the value of the Cox-de Boor recursion (right-continuous pieces, zero-width spans dropped, right-end-point rule) resp. de Boor's derivative recursion, for every order k >= 1, every knot vector, every basis index with i + k < |t|, every derivative order m and every x; m >= k gives 0; no index is out of bounds, no usize operation overflows, no division by zero occurs, the recursion terminates.",
-        "level_note": "Real-number model of f64. See coverage.uncovered_subclaims for the clauses of the property that are lemmas on the spec and not yet proved.",
+        "level_text": "Proof: bsplev_single_f64 and bspldnev_single_f64 (extracted each run) return exactly the value of the Cox-de Boor recursion (right-continuous pieces, zero-width spans dropped, right-end-point rule) resp. de Boor's derivative recursion, for every order k >= 1, every knot vector, every basis index with i + k < |t|, every derivative order m and every x; m >= k gives 0; no index is out of bounds, no usize operation overflows, no division by zero occurs, the recursion terminates. Lemmas on the spec functions, for every non-decreasing knot vector: every basis function is non-negative; it vanishes outside its k knot spans; the basis functions of order k sum to one for t_{k-1} <= x < t_{|t|-k} (telescoping of the recursion, lemma_partition_of_unity) and at the right end point (all vanish but the last, which is 1).",
+        "level_note": "Real-number model of f64. That the de Boor recursion IS the derivative of the piecewise polynomial is the oracle (de Boor's theorem), not re-derived from limits. Trusted: Verus/Z3, extractor.",
         "design_ref": "DESIGN.md §7 C14",
     },
     "C06": {
